@@ -701,6 +701,63 @@ MUTANTS = [
       (PP, """    def kill(self):
         self._send_signal(signal.SIGKILL)
 """, "")),
+    M("cpu-probe-before-user-limit", ["C17"], ["R-CPU-PHYSICAL"],
+      (CX, '''    if cpu_count_user < os_cpu_count:
+        # Respect user setting
+        return max(cpu_count_user, 1)
+
+    cpu_count_physical, exception = _count_physical_cores()
+''', '''    cpu_count_physical, exception = _count_physical_cores()
+    if cpu_count_user < os_cpu_count:
+        # Respect user setting
+        return max(cpu_count_user, 1)
+
+''')),
+    M("relaunch-reset-after-warning", ["C12", "C13"], ["R-RELAUNCH"],
+      (RT, '''                self._fd = None
+                self._pid = None
+
+                warnings.warn(
+                    "resource_tracker: process died unexpectedly, "
+                    "relaunching.  Some folders/sempahores might "
+                    "leak."
+                )
+''', '''                warnings.warn(
+                    "resource_tracker: process died unexpectedly, "
+                    "relaunching.  Some folders/sempahores might "
+                    "leak."
+                )
+                self._fd = None
+                self._pid = None
+''')),
+    M("relaunch-stderr-handler-narrowed", ["C12"], ["R-RELAUNCH"],
+      (RT, '''                fds_to_pass.append(sys.stderr.fileno())
+            except Exception:
+                pass''', '''                fds_to_pass.append(sys.stderr.fileno())
+            except (AttributeError, OSError):
+                pass''')),
+    M("respawn-guard-stale-max-workers", ["C07", "C08"], ["R-RESPAWN-GUARD"],
+      (PE, '''        self.processes_management_lock = executor._processes_management_lock
+
+        super().__init__(name="ExecutorManagerThread")''', '''        self.processes_management_lock = executor._processes_management_lock
+        self.max_workers = executor._max_workers
+
+        super().__init__(name="ExecutorManagerThread")'''),
+      (PE, '''            if n_pending - n_running > 0 or n_running > len(self.processes):
+                executor = self.executor_reference()''', '''            if (
+                n_pending - n_running > 0 or n_running > len(self.processes)
+            ) and len(self.processes) < self.max_workers:
+                executor = self.executor_reference()''')),
+    M("depth-check-moved-to-spawn", ["C19"], ["R-DEPTH"],
+      (PE, '''        _check_max_depth(self._context)
+
+        if result_reducers is None:''', '''        if result_reducers is None:'''),
+      (PE, '''    def _adjust_process_count(self):
+        while len(self._processes) < self._max_workers:''', '''    def _adjust_process_count(self):
+        _check_max_depth(self._context)
+        while len(self._processes) < self._max_workers:''')),
+    M("launch-payload-pipe-leaks-on-failure-D25", ["C18", "C20"], ["R-SPAWN-FRESH"],
+      (PP, '''            for fd in (child_r, child_w, parent_w):''', '''            for fd in (child_r, child_w):''')),
     M("id-consumed-at-end-of-submit", ["C03"], ["R-ID"],
       (PE, """            self._pending_work_items[self._queue_count] = w
             self._work_ids.put(self._queue_count)
